@@ -43,7 +43,7 @@ CLAIMED['C02'] = {
 }
 CLAIMED['C09'] = {
     'category': 'proof',
-    'text': 'calculate_specificity proved equal to the statement\'s ranking key; match() in most_specific mode proved to return the first maximal '
+    'text': 'calculate_specificity proved equal to the statement\'s ranking key read from the parsed match expression (ghost folds over ast.walk: pattern calls, their string arguments, constraint kinds); match() in most_specific mode proved to return the first maximal '
             'element (ArgMax ghost) of the matching categorizing rules; first-max and adjacent-swap lemmas by induction; all VCs discharged.',
     'level_note': _MATCH_NOTE + ' max(list, key) is modelled as the fold keeping the first maximal element.',
     'technique': 'contract-based deductive verification (loop invariants, Sel/ArgMax ghost functions, z3/cvc5) + bounded small-scope oracle over all rule orders',
